@@ -231,8 +231,30 @@ def parseOps (s : String) : Option (List Op) :=
       pure (Op.grouping g l)
     | _ => none)
 
-def stepLine (line : String) : Option String :=
+/-- `path` line: the content of one request kind through `genSign`, `recoverSign` (strip) and
+`reportQueryResult` (which adaptor call): `rand <result>` / `data <result>` / `skipped` -/
+def showPath (addrLen : Nat) (sys : Bool) (content : Bytes) : String :=
+  match stripResult addrLen content with
+  | .ok res => (if sys then "rand " else "data ") ++ toHex res
+  | .tooShort => "skipped"
+
+def stepLine (padSize addrLen : Nat) (line : String) : Option String :=
   match words line with
+  | ["path", "sys", r, a] =>
+    match r.toNat?, ofHex a with
+    | some r, some a => some (showPath addrLen true (sysContent padSize r a))
+    | _, _ => some "bad-op"
+  | ["path", "user", q, r, sd, a] =>
+    match q.toNat?, r.toNat?, sd.toNat?, ofHex a with
+    | some q, some r, some sd, some a => some (showPath addrLen false (userContent q r sd a))
+    | _, _, _, _ => some "bad-op"
+  | ["path", "url", d, a] =>
+    match ofHex d, ofHex a with
+    | some d, some a =>
+      match dataParse (recordedEngines .err) d [] with
+      | .ok p => some (showPath addrLen false (queryContent p a))
+      | _ => some "bad-op"
+    | _, _ => some "bad-op"
   -- query <kind> <parsed|err|panic> <addr> <doc> <selector>
   | ["query", _, p, a, d, s] =>
     match parsedOfTok p, ofHex a, ofHex d, ofHex s with
